@@ -196,6 +196,15 @@ def run(ctx: Ctx) -> None:
                         ctx.check(hm_s.src is hm_e.src and hm_s.dst is hm_e.dst and found, "C20/string_and_enum_spelling_behave_differently", dict(site="HomogeneousMatrix/TransformDict", src=a.value, dst=b.value), "TransformKey")
                     except Exception as e:
                         ctx.violation("C20/string_spelling_rejected_where_enum_accepted", dict(site="HomogeneousMatrix/TransformDict", src=a.value, dst=b.value, error=f"{type(e).__name__}: {str(e)[:120]}"), tap="TransformKey")
+                    # the same for the upper-case spelling FrameID documents, and for the matrix constructor
+                    for how in ("upper", "from_matrix", "from_matrix_upper"):
+                        sa, sb = (a.value.upper(), b.value.upper()) if how.endswith("upper") else (a.value, b.value)
+                        ctx.count("C20.homogeneous_matrix_spellings")
+                        try:
+                            hm_u = HomogeneousMatrix((1.0, 2.0, 3.0), (1.0, 0.0, 0.0, 0.0), src=sa, dst=sb) if how == "upper" else HomogeneousMatrix.from_matrix(hm_e.matrix.copy(), src=sa, dst=sb)
+                            ctx.check(hm_u.src is a and hm_u.dst is b, "C20/string_and_enum_spelling_behave_differently", dict(site=f"HomogeneousMatrix[{how}]", src=sa, dst=sb, got=[repr(hm_u.src), repr(hm_u.dst)]), "TransformKey")
+                        except Exception as e:
+                            ctx.violation("C20/string_spelling_rejected_where_enum_accepted", dict(site=f"HomogeneousMatrix[{how}]", src=sa, dst=sb, error=f"{type(e).__name__}: {str(e)[:120]}"), tap="TransformKey")
                 ctx.case(("site", "TransformKey", a.name, b.name), nontrivial=True)
         for t in EvaluationTask:
             ctx.begin_case("sites", 0, site="LabelConverter/from_task", task=t.value)
